@@ -43,6 +43,13 @@ for _n in (
     _REAL[_n] = getattr(os, _n)
 
 
+def _ino_of(fd: int) -> int | None:
+    try:
+        return os.fstat(fd).st_ino
+    except (OSError, ValueError):
+        return None
+
+
 class SimCrash(BaseException):
     """The simulated process died at this operation."""
 
@@ -73,10 +80,11 @@ ERRNOS = {
 
 
 class Op:
-    __slots__ = ("k", "op", "paths", "extra", "outcome", "fault")
+    __slots__ = ("k", "op", "paths", "extra", "outcome", "fault", "ino")
 
     def __init__(self, k: int, op: str, paths: list[str], extra: dict[str, Any]) -> None:
         self.k, self.op, self.paths, self.extra = k, op, paths, extra
+        self.ino: int | None = None  # data writes only: inode written to (0 = a pipe); never recorded (not reproducible)
         self.outcome = "ok"
         self.fault: dict[str, Any] | None = None
 
@@ -366,6 +374,7 @@ class Interposer:
             if p is None:
                 return _REAL["write"](fd, data)
             o = ip.begin("os-write", [p], n=len(data))
+            o.ino = _ino_of(fd)
             n = ip._apply_write(o, data, lambda b: _REAL["write"](fd, b))
             ip.end(o)
             return n
@@ -712,6 +721,7 @@ class SimRaw(io.RawIOBase):
         if ip.cleanup:
             return len(memoryview(b).cast("B"))
         o = ip.begin("write", [self._p], n=len(memoryview(b).cast("B")))
+        o.ino = _ino_of(self._f.fileno())
         n = ip._apply_write(o, b, self._f.write)
         ip.end(o)
         return n
